@@ -76,6 +76,7 @@ def window_menu(T):
         (("after", 1), ("after", 2)),     # empty, after
         (("before", 1), ("gp", 2)),       # straddling the start
         (("gp", last - 2), ("after", 1)),  # straddling the end
+        (("gp", 1), ("gp", 2)),           # a single step
     ]
 
 
@@ -112,7 +113,7 @@ def gen_contract(ch, g, name, node, price, caps, feats, allow_free_price=False):
     T = g.T
     a = dict(type="SimpleContract", name=name, nodes=[node], price=price)
     lo, hi = caps
-    capsel = ch.pick(name + ".caps", ["base", "buy_only", "sell_only", "dict", "series"] if "caps" in feats else ["base"])
+    capsel = ch.pick(name + ".caps", ["base", "buy_only", "sell_only", "dict", "series", "zero_steps", "fixed"] if "caps" in feats else ["base"])
     if capsel == "base":
         a["min_cap"], a["max_cap"] = r(lo, g), r(hi, g)
     elif capsel == "buy_only":
@@ -123,6 +124,13 @@ def gen_contract(ch, g, name, node, price, caps, feats, allow_free_price=False):
         h = max(1, T // 2)
         a["min_cap"] = interval_dict(g, [((("gp", 0), ("gp", h)), r(lo, g)), ((("gp", h), ("gp", T)), r(lo / 2.0, g))])
         a["max_cap"] = interval_dict(g, [((("gp", 0), ("gp", h)), r(hi, g)), ((("gp", h), ("gp", T)), r(hi / 2.0 + 1.0, g))])
+    elif capsel == "zero_steps":   # capacity exactly zero in the second half of the horizon
+        h = max(1, T // 2)
+        a["min_cap"] = interval_dict(g, [((("gp", 0), ("gp", h)), r(lo, g)), ((("gp", h), ("gp", T)), 0.0)])
+        a["max_cap"] = interval_dict(g, [((("gp", 0), ("gp", h)), r(hi, g)), ((("gp", h), ("gp", T)), 0.0)])
+    elif capsel == "fixed":        # min_cap = max_cap (a fixed profile)
+        v = hi if hi > 0 else lo
+        a["min_cap"], a["max_cap"] = r(v * 0.4, g), r(v * 0.4, g)
     elif capsel == "series":
         a["min_cap"], a["max_cap"] = "cap_lo_" + name, "cap_hi_" + name
         a["_series"] = {"cap_lo_" + name: [r(lo, g) * (1 if i % 2 == 0 else 0.5) for i in range(T)],
@@ -205,7 +213,7 @@ def gen_storage(ch, g, name, nodes, feats, base=None):
         if v:
             a["inflow"] = r(v, g)
     if "sto_levels" in feats:
-        lv = ch.pick(name + ".levels", [(b["start_level"], b["end_level"]), (3.0, 2.0), (2.0, 2.0), (0.0, 4.0)])
+        lv = ch.pick(name + ".levels", [(b["start_level"], b["end_level"]), (3.0, 2.0), (2.0, 2.0), (0.0, 4.0), (b["size"], b["size"]), (b["size"], 0.0)])
         a["start_level"], a["end_level"] = lv
     if "sto_size0" in feats:
         if ch.pick(name + ".size0", [False, True]):
@@ -259,7 +267,7 @@ def gen_transport(ch, g, name, nodes, feats):
         if ch.pick(name + ".dir", ["pos", "neg"]) == "neg":
             a["min_cap"], a["max_cap"] = r(-3.0, g), r(0.0, g)
     if "tr_eff" in feats:
-        e = ch.pick(name + ".efficiency", [1.0, 0.8])
+        e = ch.pick(name + ".efficiency", [1.0, 0.8, 1.1])
         if e != 1.0:
             a["efficiency"] = e
     if "tr_costs" in feats:
